@@ -52,7 +52,10 @@ def main():
     a = ap.parse_args()
     seed = os.path.abspath(a.seed)
     meta = json.load(open(os.path.join(seed, "meta.json")))
-    name = os.path.basename(os.path.dirname(seed)) + "_" + os.path.basename(seed) if os.path.basename(seed) in ("A", "B") else os.path.basename(seed)
+    name = os.path.basename(seed)
+    if name in ("A", "B", "C", "D"):
+        parts = seed.split(os.sep)
+        name = (parts[-3] if parts[-2] == "out" else parts[-2]) + "_" + name
     checks = a.checks.split(",") if a.checks else [meta["property"]]
     root = "/tmp/seedrun/%s_%d" % (name, os.getpid())
     wt = os.path.join(root, "wt")
